@@ -1,6 +1,7 @@
 //! hcore: glue between the savefile crate under test and the savefile-independent vcore.
 pub mod dynglue;
 pub mod faultio;
+pub mod intro;
 pub mod ops;
 pub mod runner;
 pub mod schema_conv;
